@@ -27,10 +27,11 @@ class Trampoline:
                 return
         try:
             self._run()
-        finally:
+        except BaseException:
             with self._lock:
                 self._idle = True
                 self._queue.clear()
+            raise
 
     def _run(self) -> None:
         ready: deque[ScheduledItem] = deque()
@@ -50,6 +51,10 @@ class Trampoline:
 
             with self._lock:
                 if len(self._queue) == 0:
+                    # go idle in the critical section that saw the queue empty:
+                    # an item enqueued from another thread right after it then
+                    # finds the trampoline idle and is run by its own thread
+                    self._idle = True
                     break
                 item = self._queue.peek()
                 seconds = (item.duetime - item.scheduler.now).total_seconds()
